@@ -250,7 +250,7 @@ def observe_db(conn, tname, universe=()):
 
 # ------------------------------------------------------------------------------- statements
 
-_IGN = re.compile(r"^\s*(PRAGMA|SELECT)\b", re.I)
+_IGN = re.compile(r"^\s*(PRAGMA|SELECT|BEGIN)\b", re.I)
 
 
 def abstract_stmt(sql, tname):
@@ -305,6 +305,16 @@ class InjectedFault(Exception):
 
 # ------------------------------------------------------------------------------- ops -> real calls
 
+def existing_type_of(o):
+    """autogenerate-style existing_type= carrying a named schema-type CHECK (Boolean / Enum, create_constraint=True)"""
+    n = o.get("existing_type_const")
+    if not n:
+        return None
+    if o.get("existing_type_kind") == "enum":
+        return sa.Enum("a", "b", name=n, create_constraint=True)
+    return sa.Boolean(create_constraint=True, name=n)
+
+
 def apply_op(b, o):
     k = o["op"]
     if k == "add_column":
@@ -322,7 +332,11 @@ def apply_op(b, o):
             pos["insert_after"] = o["after"]
         b.add_column(col, **pos)
     elif k == "drop_column":
-        b.drop_column(o["name"])
+        et = existing_type_of(o)
+        if et is not None:
+            b.drop_column(o["name"], existing_type=et)
+        else:
+            b.drop_column(o["name"])
     elif k == "alter_column":
         kw = {}
         if o.get("new_name") is not None:
@@ -334,6 +348,11 @@ def apply_op(b, o):
         if o.get("default") is not None:
             d = o["default"]["set"]
             kw["server_default"] = None if d is None else (sa.text(d) if not d.startswith("'") else d[1:-1].replace("''", "'"))
+        if o.get("comment") is not None:
+            kw["comment"] = o["comment"]
+        et = existing_type_of(o)
+        if et is not None:
+            kw["existing_type"] = et
         b.alter_column(o["name"], **kw)
     elif k == "add_unique":
         b.create_unique_constraint(o["name"], o["cols"])
@@ -400,10 +419,24 @@ def exc_kind(e):
 class Db:
     """one scratch SQLite database file holding the table under test (+ a referred table)"""
 
-    def __init__(self, table, extra_sql=()):
+    def __init__(self, table, extra_sql=(), iso="default"):
+        """iso: 'default' (pysqlite legacy transaction control), 'autocommit' (isolation_level="AUTOCOMMIT"),
+        'begin' (the documented recipe: driver isolation_level=None + BEGIN emitted on SQLAlchemy's begin event)"""
         self.dir = tempfile.mkdtemp(prefix="verif_batch_")
         self.path = os.path.join(self.dir, "x.db")
-        self.engine = sa.create_engine("sqlite:///" + self.path)
+        if iso == "autocommit":
+            self.engine = sa.create_engine("sqlite:///" + self.path, isolation_level="AUTOCOMMIT")
+        else:
+            self.engine = sa.create_engine("sqlite:///" + self.path)
+        if iso == "begin":
+            @event.listens_for(self.engine, "connect")
+            def _connect(dbapi_connection, connection_record):
+                dbapi_connection.isolation_level = None
+
+            @event.listens_for(self.engine, "begin")
+            def _begin(conn):
+                conn.exec_driver_sql("BEGIN")
+        self.iso = iso
         self.table = table
         with self.engine.connect() as conn:
             for s in extra_sql:
@@ -424,7 +457,7 @@ class Db:
             shutil.rmtree(self.dir, ignore_errors=True)
 
 
-def run_batch(db, ops, recreate="always", copy_from=False, fault=None, scope="none", universe=()):
+def run_batch(db, ops, recreate="always", copy_from=False, fault=None, scope="none", universe=(), tddl=None):
     """Runs the real batch_alter_table.  scope: 'none' (connection not in a transaction: flush opens one
     through _ensure_scope_for_ddl), 'outer' (caller's `with conn.begin()`, rolled back by the exception),
     'swallow' (caller's transaction, exception caught inside it, transaction committed).
@@ -448,7 +481,8 @@ def run_batch(db, ops, recreate="always", copy_from=False, fault=None, scope="no
                 raise InjectedFault("injected at statement %d" % i)
 
         event.listen(conn, "before_cursor_execute", bce)
-        ctx = MigrationContext.configure(conn)
+        # tddl: the `transactional_ddl` option of the context (None = dialect default, False on SQLite)
+        ctx = MigrationContext.configure(conn, opts={} if tddl is None else {"transactional_ddl": tddl})
         op = Operations(ctx)
         kw = {"recreate": recreate}
         if copy_from:
